@@ -73,7 +73,8 @@ def main():
     for (last, nobs, rc, err) in crashes:
         cc = dict(cases[last])
         cc["ops"] = cases[last]["ops"][:nobs + 1]
-        ck.violation("crash:D", "the implementation crashed or did not terminate (rc=%d; 124 = timeout) in case %d after %d observations" % (rc, last, nobs),
+        opn = cases[last]["ops"][nobs][0] if nobs < len(cases[last]["ops"]) else "end"
+        ck.violation("crash:D:" + opn, "the implementation crashed or did not terminate (rc=%d; 124 = timeout) in case %d after %d observations" % (rc, last, nobs),
                      {"kind": "crash", "case": cc, "stderr": err})
     for k, c in enumerate(probes):
         cid = "p%d" % k
